@@ -108,12 +108,23 @@ def series_same(a, b):
                 return False
         else:
             try:
-                if x.tolist() != y.tolist():
+                if x.tolist() != y.tolist() and (x.dtype.kind != 'O' or _norm(x.tolist()) != _norm(y.tolist())):
                     return False
             except ValueError:   # object series holding arrays
-                if repr(x.tolist()) != repr(y.tolist()):
+                if repr(_norm(x.tolist())) != repr(_norm(y.tolist())):
                     return False
     return True
+
+
+def _norm(o):
+    """Object-series items by content: the library's own record objects (one per period, no __eq__) by class and attributes."""
+    if isinstance(o, (list, tuple)):
+        return [_norm(v) for v in o]
+    if isinstance(o, np.ndarray):
+        return ['ndarray', str(o.dtype), _norm(o.tolist())]
+    if type(o).__module__.startswith('fsic') and hasattr(o, '__dict__'):
+        return [type(o).__name__, {k: _norm(v) for k, v in sorted(vars(o).items())}]
+    return o
 
 
 def check_invariant(ctx, c, dtypes, hist, kind):
@@ -133,7 +144,7 @@ def check_invariant(ctx, c, dtypes, hist, kind):
             ctx.violation('series-dtype', f'{kind}: after {hist[-1]}, series {k} has dtype {a.dtype}, created as {dtypes[k]}', case)
             return False
     names = list(d['names']) if 'names' in d else list(d['index'])
-    declared = [k for k in d['index'] if k not in ('status', 'iterations')]
+    declared = [k for k in d['index'] if k not in ('status', 'iterations', getattr(type(c), 'TRACE_NAME', None))]
     if 'names' in d and names != declared:
         ctx.violation('names-out-of-step', f'{kind}: after {hist[-1]}, names {names} differ from the declared variables {declared} (values/size are built from names)', case)
         return False
@@ -275,6 +286,32 @@ def make(kind, n, strict):
         class L0(fsic.BaseLinker):
             pass
         c = monitored(L0)({'s': S0(cspan)})
+        if strict:
+            c.strict = True
+        dtypes = {k: c.__dict__['_' + k].dtype for k in c.index}
+    elif kind == 'model-traced':
+        # a model that keeps a record series of its own in `index` (the tracer's, one object per period): not a variable, so
+        # neither a row of `values` nor counted by `size`
+        from fsic.extensions import TracerMixin
+
+        class MT(TracerMixin, fsic.BaseModel):
+            ENDOGENOUS = ['A']
+            EXOGENOUS = ['B']
+            NAMES = ENDOGENOUS + EXOGENOUS
+        c = monitored(MT)(cspan, strict=strict)
+        dtypes = {k: c.__dict__['_' + k].dtype for k in c.index}
+    elif kind == 'linker-traced':
+        from fsic.extensions import TracerMixin
+
+        class ST(TracerMixin, fsic.BaseModel):
+            ENDOGENOUS = ['Y']
+            NAMES = ENDOGENOUS
+
+        class LT(fsic.BaseLinker):
+            ENDOGENOUS = ['A']
+            EXOGENOUS = ['B']
+            NAMES = ENDOGENOUS + EXOGENOUS
+        c = monitored(LT)({'s': ST(cspan)})
         if strict:
             c.strict = True
         dtypes = {k: c.__dict__['_' + k].dtype for k in c.index}
@@ -589,6 +626,16 @@ def run_shard(ctx):
                         h = history(ctx, kind, 2, born_strict, plan, rng)
                         ctx.count('strict_sandwich_histories')
                         ctx.evaluation((kind, 2, born_strict, h), nontrivial=bool(h))
+    # classes with a record series of their own (the tracer's): the same single operations
+    for kind in ('model-traced', 'linker-traced'):
+        for n in (1, 3):
+            for strict in (False, True):
+                for s1 in single:
+                    idx += 1
+                    if ctx.mine(idx):
+                        h = history(ctx, kind, n, strict, [s1], rng)
+                        ctx.count('traced_histories')
+                        ctx.evaluation((kind, n, strict, h), nontrivial=bool(h))
     # classes that declare no variables: the invariant (values / size included) from the very first operation
     for kind in ('model-bare', 'linker-bare'):
         for n in (1, 2):
